@@ -23,7 +23,7 @@ build:
        if totalUniqueCount >= maxKeyLength: break outer
        AddAsString(value, i)   -- new value: totalUniqueCount++; stored only if still < max
   for i in fields: values := sorted(distinct[i]); if len(values)==0: continue
-       prev := ""; for str in values: if str != prev { write str; write '•'; n++ }; prev = str
+       for j, str in values: if j == 0 || str != values[j-1] { write str; write '•'; n++ }
        write ','
   if RootSpan != nil: for field in rootOnlyFields: if exists: write fmt("%v,", value); n++
   if useTraceLength: write len(spans); n++
@@ -100,17 +100,23 @@ def collect (cap : Nat) (conv : Val → String) (spans : List Span) : List Strin
 
 /-! ## rendering -/
 
-/-- the `prevStr` loop over the sorted values: text written and number of values written -/
-def renderVals : String → List String → String × Nat
+/-- the loop over the sorted values for `j ≥ 1`: written when `str != values[j-1]` (`prev`) -/
+def renderRest : String → List String → String × Nat
   | _, [] => ("", 0)
   | prev, s :: t =>
-    let r := renderVals s t
+    let r := renderRest s t
     if s ≠ prev then (s ++ "•" ++ r.1, r.2 + 1) else r
+
+/-- the loop over the sorted values, `if j == 0 || str != values[j-1]`: text written and number
+of values written (the first value is always written, the empty string included) -/
+def renderVals : List String → String × Nat
+  | [] => ("", 0)
+  | s :: t => let r := renderRest s t; (s ++ "•" ++ r.1, r.2 + 1)
 
 /-- one field's part of the key; a field without stored values is skipped entirely -/
 def renderGroup (vals : List String) : String × Nat :=
   if vals.isEmpty then ("", 0)
-  else let r := renderVals "" (sortStr vals); (r.1 ++ ",", r.2)
+  else let r := renderVals (sortStr vals); (r.1 ++ ",", r.2)
 
 def renderGroups : List (List String) → String × Nat
   | [] => ("", 0)
